@@ -4,4 +4,4 @@ INVARIANT Emit
 CHECK_DEADLOCK FALSE
 CONSTANTS
   Depth2 = TRUE
-  NonAscii = FALSE
+  NonAscii = TRUE
